@@ -63,6 +63,32 @@ def _snapshot(c):
                                                          e["old"], e["new"]), e)
 
 
+def _reset_race(c):
+    """'across list resets', concurrently: a request parked between matching and caching its outcome while the list is
+    refreshed (the gate laboratory and the trace specification of C12, hash-prefix filter only)."""
+    c.tlc_mc("FilterCache", "FilterCache_sanity_lock.cfg", expect_violation="NoStaleAfterRefresh",
+             name="sanity: no common lock between match+store and swap+clear")
+    out, _ = c.go_harness("internal/filter/hashprefix", "^TestVerifC12Gate$", files=["c12_test.go"],
+                          env={"VERIF_ROUNDS": 20 if c.thorough else 4}, timeout=1200)
+    ev = read_ndjson(out)
+    if len(ev) < 3:
+        raise Undecided("vacuous: %d gate rounds" % len(ev))
+    path = os.path.join(c.scratch, "c11gate.ndjson")
+    write_ndjson(path, [{"ev": e["ev"], "cached": e.get("cached", ""), "plain": e.get("plain", ""), "cachedr": e.get("cachedr", ""),
+                         "plainr": e.get("plainr", "")} for e in ev])
+    r = c.tlc_trace("TraceFilterCache", "TraceFilterCache.cfg", path)
+    if r.tuples("STUCK"):
+        raise Undecided("trace spec stuck")
+    c.cov["traces_validated_against_impl"] += len(ev)
+    for e in ev:
+        c.count_case(("gate", e["what"], e["q"]["host"]), nontrivial=True)
+    for t in r.tuples("NONCONF"):
+        e = ev[int(t[0]) - 1]
+        c.violation({"kind": "reset-race", "what": e["what"].split(":")[0]},
+                    "C11 request vs list reset, %s %s: %s; with the result cache=%s | without=%s" % (
+                        e["what"], json.dumps(e["q"]), t[1], e.get("cached", "")[:300], e.get("plain", "")[:300]), e)
+
+
 def run(c: Check):
     th = c.thorough
     # 1. design check: the implementation-shaped layer computes the contract
@@ -101,6 +127,7 @@ def run(c: Check):
     _snapshot(c)
     _validate(c, ev2, "preservice")
     _coverage(c, ev, ev2)
+    _reset_race(c)
     c.cov["rule"] = ("a case is one observation of the real code after a sequence of Resets: a FilterRequest verdict "
                      "(Filter fed from a file / from HTTP, cold and cached), a Storage.Matches sweep, a MatchByPrefix / "
                      "Storage.Hashes / preservice TXT answer, or the storage content after a Reset; non-trivial = the "
